@@ -1,6 +1,8 @@
 # self-validation battery (see runner.py): mutants must be reported under the named rule, neutral rewrites must stay silent
 MUTANTS = [
     {'name': 'revert: own slur/tuplet lists', 'revert': 'its own slur/tuplet lists', 'expect': '|SHARE-copy|'},
+    {'name': 'revert: de-duplicates notes in input order', 'revert': 'de-duplicates notes in input order', 'expect': '|SET-ORDER|'},
+    {'name': 'voice table rows listed from a set of the notes', 'file': 'partitura/musicanalysis/voice_separation.py', 'old': '        out_array = []\n\n        for n in self.notes:\n            out_note = (', 'new': '        out_array = []\n        unique_notes = {n for n in self.notes}\n\n        for n in unique_notes:\n            out_note = (', 'expect': '|SET-ORDER|'},
     {'name': 'revert: fresh iterator per iteration', 'revert': 'fresh iterator per iteration', 'expect': 'ITER'},
     {'name': 'revert: transposes every note of the copy', 'revert': 'transposes every note of the copy', 'expect': 'F1'},
     {'name': 'pretty printing stores on the part', 'file': 'partitura/score.py', 'old': '    def pretty(self):', 'new': '    def pretty(self):\n        self._pretty_calls = getattr(self, "_pretty_calls", 0) + 1\n        return self._pretty()\n\n    def _pretty(self):', 'expect': 'F1'},
@@ -8,7 +10,9 @@ MUTANTS = [
     {'name': "midi exporter sorts the caller's list", 'file': 'partitura/io/exportmidi.py', 'old': '    elif isinstance(score_data, Iterable):\n        parts = score_data\n', 'new': '    elif isinstance(score_data, Iterable):\n        parts = score_data\n        parts.sort(key=lambda p: p.id)\n', 'expect': 'F1'},
     {'name': 'piano roll registers inputs in a module list', 'file': 'partitura/utils/music.py', 'old': '    note_array = ensure_notearray(note_info)\n\n    if time_unit not in TIME_UNITS + ["auto"]:', 'new': '    note_array = ensure_notearray(note_info)\n    TIME_UNITS.append("auto")\n\n    if time_unit not in TIME_UNITS + ["auto"]:', 'expect': 'GLOBAL'}]
 
-NEUTRALS = []
+NEUTRALS = [
+    {'name': 'a set of notes consumed by order-free functions only', 'file': 'partitura/musicanalysis/voice_separation.py', 'old': '        # sort notes by onset\n        self.notes = self.notes[np.argsort([n.onset for n in self.notes])]', 'new': '        # sort notes by onset\n        assert len(set(self.notes)) == len(self.notes)\n        self.notes = self.notes[np.argsort([n.onset for n in self.notes])]'},
+    {'name': 'de-duplicated track numbers (a set of numbers) listed', 'file': 'partitura/musicanalysis/voice_separation.py', 'old': '        # Get unique onsets\n        self.unique_onsets = np.unique(self.note_onsets)', 'new': '        # Get unique onsets\n        _pitches = list(set(n.pitch for n in self.notes))\n        self.unique_onsets = np.unique(self.note_onsets)'}]
 
 # changes made by sub-agents that were given only the property text (see /verif/seeded/<id>/): each must stay reported
 SEEDED = [
